@@ -62,6 +62,19 @@ let handle toks =
     let (s, s', ok) = apply (OCreateOther (z_of_string t, z_of_string e, kind_of k, OLst.map (name_of s0) names)) in
     let res = (if ok then "ok" else "rej") ^ " n=" ^ ostring_of_int (int_of_nat s'.st_next - int_of_nat s.st_next) in
     answer res res s'
+  | "xfork" :: t :: e :: k :: _ :: names ->
+    let s0 = (match !st with Some s -> s | None -> failwith "no file") in
+    let (s, s', ok) = apply (OFork (z_of_string t, z_of_string e, kind_of k, OLst.map (name_of s0) names)) in
+    let res = (if ok then "ok" else "rej") ^ " n=" ^ ostring_of_int (int_of_nat s'.st_next - int_of_nat s.st_next) in
+    answer res res s'
+  | ["forks"; n; k] ->
+    (* a process (second 1000, entropy 1) draws 2 ids, forks n children (entropy 2..n+1) that draw k+3 ids each
+       (own file, k blocks, two plain createId calls), and draws k more itself *)
+    let kk = oint_of_string k in
+    let cs = OLst.init (oint_of_string n) (fun i -> (z_of_int 1000, z_of_int (i + 2))) in
+    let common = fork_common toy_gen beh (z_of_int 1000) (z_of_int 1) (nat_of_int 2) cs (nat_of_int (kk + 3)) (nat_of_int kk) in
+    let line c = "OK forks=" ^ n ^ " k=" ^ k ^ " wellformed=1 common=" ^ c in
+    line (bool01 common) ^ " ## " ^ line "0"
   | ["procs"; k; n] ->
     (* k processes started within one second (entropy values 1..k), n ids each *)
     let es = OLst.init (oint_of_string k) (fun i -> z_of_int (i + 1)) in
